@@ -99,7 +99,7 @@ pub fn gen_hostile(r: &mut Rng) -> Case {
                     0 => {}
                     1 => ct.push_str("; charset"),
                     2 => ct.push_str("; charset="),
-                    3 => ct.push_str(&format!("; charset={}", r.pick(&["zz", "\"utf-8\"", " utf-8 ", "UTF-8;", "=", "utf-8=utf-8"]))),
+                    3 => ct.push_str(&format!("; charset={}", r.pick(&["zz", "\"utf-8\"", " utf-8 ", "UTF-8;", "=", "utf-8=utf-8", "\"", "\"\"", "\"\"\"", "'", "\"utf-8", "utf-8\"", "\" ; x=y", "\\", "\"\\\"", ","]))),
                     _ => ct.push_str(&format!("; charset={}", r.pick(&LABELS))),
                 }
                 w.header("content-type", ct.as_bytes());
